@@ -449,15 +449,16 @@ def _impl_run_script(script, cache_vals, cfg, seconds):
                        cache_str(cache), ','.join(log) or '-'])
 
 
-def impl_run_auth(scripts, cache_vals, cfg):
-    r = _impl_run_auth(scripts, cache_vals, cfg, None)
-    if r == 'timeout':
+def impl_run_auth(scripts, cache_vals, cfg, share=False):
+    r = _impl_run_auth(scripts, cache_vals, cfg, None, share)
+    if r == 'timeout' and not share:
         r = _impl_run_auth(scripts, cache_vals, cfg, 4 * Watch().seconds)
     return r
 
 
-def _impl_run_auth(scripts, cache_vals, cfg, seconds):
-    cache_vals = copy.deepcopy(cache_vals)
+def _impl_run_auth(scripts, cache_vals, cfg, seconds, share=False):
+    if not share:           # share=True: the embedder's own dictionary object is handed in (an embedder may reuse one dict)
+        cache_vals = copy.deepcopy(cache_vals)
     log = Log()
     Pins.ridx = 0
     Pins.now = cfg.now
